@@ -111,6 +111,16 @@ def H_of(d):
     return H
 
 
+def with_empty(rng, d, p=0.35):
+    """With probability p: an empty edge under an integer ID above every other one (and sometimes an isolated node)."""
+    if rng.random() < p:
+        nums = [i for i in d if isinstance(i, (int, float)) and not isinstance(i, bool)]
+        top = int(max(nums)) + rng.choice((1, 2)) if nums else rng.choice((2, 5))
+        d = dict(d)
+        d[top] = []
+    return d
+
+
 # ---------------------------------------------------------------------------------
 # provenance recipes: name -> function(rng, tmpdir) -> network
 # ---------------------------------------------------------------------------------
@@ -159,7 +169,7 @@ def _(rng, td):
 
 @prov("ctor:Hypergraph(H)")
 def _(rng, td):
-    return xgi.Hypergraph(H_of(base(rng)[1]))
+    return xgi.Hypergraph(H_of(with_empty(rng, base(rng)[1])))
 
 
 @prov("ctor:Hypergraph(SC)")
@@ -233,6 +243,12 @@ def _(rng, td):
     G.add_nodes_from({n for ms in d.values() for n in ms}, bipartite=0)
     G.add_nodes_from(d, bipartite=1)
     G.add_edges_from((n, e) for e, ms in d.items() for n in ms)
+    if rng.random() < 0.4:  # vertices without links: an isolated node and an edge-vertex of degree 0
+        G.add_node("iso-node", bipartite=0)
+        G.add_node(max([i for i in d if isinstance(i, int)] + [3]) + 1, bipartite=1)
+    if rng.random() < 0.3:
+        H = H_of(with_empty(rng, d, 1.0))
+        G = xgi.to_bipartite_graph(H)
     return xgi.from_bipartite_graph(G, dual=rng.random() < 0.2)
 
 
@@ -247,7 +263,7 @@ def _(rng, td):
 def _(rng, td):
     r = rng.random()
     if r < 0.4:
-        src = H_of(base(rng)[1])
+        src = H_of(with_empty(rng, base(rng)[1]))
     elif r < 0.7:
         src = xgi.DiHypergraph(dbase(rng)[1])
     else:
@@ -267,7 +283,7 @@ def _(rng, td):
 
 @prov("from_hypergraph_dict")
 def _(rng, td):
-    H = H_of(base(rng, int_ids=True, nkind="int")[1])
+    H = H_of(with_empty(rng, base(rng, int_ids=True, nkind="int")[1]))
     data = xgi.to_hypergraph_dict(H)
     return xgi.from_hypergraph_dict(data, nodetype=int, edgetype=int)
 
@@ -319,7 +335,7 @@ def _(rng, td):
 
 @prov("read_json")
 def _(rng, td):
-    H = H_of(base(rng, int_ids=True, nkind="int")[1])
+    H = H_of(with_empty(rng, base(rng, int_ids=True, nkind="int")[1]))
     p = os.path.join(td, "h.json")
     xgi.write_json(H, p)
     return xgi.read_json(p, nodetype=int, edgetype=int)
@@ -329,7 +345,7 @@ def _(rng, td):
 def _(rng, td):
     r = rng.random()
     if r < 0.4:
-        src = H_of(base(rng, int_ids=True)[1])
+        src = H_of(with_empty(rng, base(rng, int_ids=True)[1]))
     elif r < 0.7:
         kind, d, _ = dbase(rng)
         src = xgi.DiHypergraph({i: m for i, m in d.items() if isinstance(i, (int, str)) and not isinstance(i, bool)})
@@ -504,7 +520,7 @@ def _(rng, td):
 def _any_net(rng):
     r = rng.random()
     if r < 0.5:
-        return H_of(base(rng)[1])
+        return H_of(with_empty(rng, base(rng)[1]))
     if r < 0.75:
         return xgi.DiHypergraph(dbase(rng)[1])
     return xgi.SimplicialComplex(base(rng)[1])
